@@ -121,7 +121,8 @@ func c05Violation(caseID, sig, what string, det map[string]interface{}) {
 
 type c05Instr struct {
 	N         int
-	Gen, TS   int
+	Gen, TS   int // TS: the server the curator addressed (index of its address)
+	TSID      core.TractserverID // the id the curator stamped on the request
 	Old       []core.TractState
 	Gone      []core.TractID
 	Delivered int
@@ -225,7 +226,7 @@ func (h *c05H) install() { h.d.Cl.Cur.C05Install(h.hooks) }
 // hook: the curator's GC loop sent an instruction
 func (h *c05H) onGC(gen int, addr string, tsid core.TractserverID, old []core.TractState, gone []core.TractID) {
 	h.mu.Lock()
-	in := &c05Instr{N: len(h.soup), Gen: gen, TS: vc.TSIndex(addr), Old: old, Gone: gone, AtEvent: len(h.d.Events)}
+	in := &c05Instr{N: len(h.soup), Gen: gen, TS: vc.TSIndex(addr), TSID: tsid, Old: old, Gone: gone, AtEvent: len(h.d.Events)}
 	h.soup = append(h.soup, in)
 	h.captured = append(h.captured, in)
 	h.mu.Unlock()
@@ -425,9 +426,14 @@ func (h *c05H) reportAll(ts int, shuffle bool) {
 }
 
 // deliver: instruction in reaches its tractserver now (again)
-func (h *c05H) deliver(in *c05Instr, fault bool) {
+func (h *c05H) deliver(in *c05Instr, fault bool) { h.deliverTo(in, fault, in.TS) }
+
+// deliverTo: the request (stamped with the id it was computed for) reaches tractserver recv: the addressed one, or
+// another process (server replaced under a new id at the same address, stale address cache, duplicate delivered to
+// the wrong process).  Goes through the real TSCtlHandler.GCTract; the monitors judge what THAT server lost.
+func (h *c05H) deliverTo(in *c05Instr, fault bool, recv int) {
 	d := h.d
-	ts := d.Cl.TS[in.TS]
+	ts := d.Cl.TS[recv]
 	var pres []c05Pre
 	recs := map[core.BlobID]curator.VerifC05Blob{}
 	type rsr struct {
@@ -437,7 +443,7 @@ func (h *c05H) deliver(in *c05Instr, fault bool) {
 	rss := map[core.TractID]rsr{}
 	look := func(id core.TractID) {
 		ok, v := ts.C05Has(id)
-		pres = append(pres, c05Pre{key: c05Key{in.TS, id}, present: ok, version: v})
+		pres = append(pres, c05Pre{key: c05Key{recv, id}, present: ok, version: v})
 		if id.IsRS() {
 			hh, o := d.Cl.D.C05RSPiece(id)
 			rss[id] = rsr{hh, o}
@@ -454,10 +460,13 @@ func (h *c05H) deliver(in *c05Instr, fault bool) {
 	for _, g := range in.Gone {
 		look(g)
 	}
-	ts.GCTract(core.TractserverID(in.TS), in.Old, in.Gone)
+	reply := ts.GCTract(in.TSID, in.Old, in.Gone)
 	ts.C05ClearFaults()
 	in.Delivered++
-	obs := []int64{int64(len(pres))}
+	if recv != in.TS {
+		h.stats["deliveries.misaddressed"]++
+	}
+	obs := []int64{int64(reply), int64(len(pres))}
 	for i, p := range pres {
 		ok, _ := ts.C05Has(p.key.id)
 		obs = append(obs, b2i64(ok))
@@ -465,6 +474,10 @@ func (h *c05H) deliver(in *c05Instr, fault bool) {
 			how := "old"
 			if i >= len(in.Old) {
 				how = "gone"
+			}
+			if reply != core.NoError {
+				h.bad("gc-refused-request-removed-copy", "a GCTract request that the tractserver answered with an error removed a copy",
+					map[string]interface{}{"ts": recv, "stamped-for": int(in.TSID), "reply": reply.String(), "tract": p.key.id.String()})
 			}
 			r := rss[p.key.id]
 			if h.judgeRemoval(in, p, how, recs[p.key.id.Blob], r.h, r.ok) {
@@ -475,8 +488,8 @@ func (h *c05H) deliver(in *c05Instr, fault bool) {
 			h.stats["removed."+how]++
 		}
 	}
-	d.Snap.Refresh(d.Cl, in.TS)
-	h.emit(c05Deliver, []int64{int64(in.N), b2i64(fault)}, obs)
+	d.Snap.Refresh(d.Cl, recv)
+	h.emit(c05Deliver, []int64{int64(in.N), b2i64(fault), int64(recv)}, obs)
 	h.afterStep()
 }
 
@@ -776,7 +789,11 @@ func (h *c05H) actions() []vc.Action {
 			} else {
 				in = h.soup[r.Intn(len(h.soup))]
 			}
-			h.deliver(in, r.Chance(1, 6) && len(in.Old) > 0)
+			recv := in.TS
+			if r.Chance(1, 5) {
+				recv = r.Range(1, nts) // any process, usually not the addressed one
+			}
+			h.deliverTo(in, r.Chance(1, 6) && len(in.Old) > 0, recv)
 		}})
 	}
 	if h.nStray < 4 {
@@ -964,6 +981,13 @@ func (h *c05H) sweep() {
 	for i := 0; i < n && i < 6; i++ {
 		h.deliver(h.soup[i], false)
 	}
+	for i := 0; i < n && i < 8; i++ { // ... and each of the first few once at every OTHER server
+		for s := 1; s <= nts; s++ {
+			if s != h.soup[i].TS && (nts <= 5 || (s+i)%4 == 0) {
+				h.deliverTo(h.soup[i], false, s)
+			}
+		}
+	}
 }
 
 func (h *c05H) finish(tr *vw.Trace) {
@@ -1112,6 +1136,12 @@ func c05DirectedReadd(root *vw.Rng, tr *vw.Trace, id string, fault bool) {
 		return
 	}
 	stale := h.soup[len(h.soup)-1]
+	// the same request reaches the wrong processes first (a current host whose copy is at the instruction's version, ...)
+	for s := 1; s <= 4; s++ {
+		if s != c {
+			h.deliverTo(stale, false, s)
+		}
+	}
 	d.StartReplicate(0, 0, []int{dnew}) // the only candidate is C
 	h.quiesce()
 	h.deliver(stale, fault)
@@ -1551,7 +1581,11 @@ func c05CaseStore(root *vw.Rng, ci int, tr *vw.Trace) {
 		for j := 0; j < ng; j++ {
 			gone = append(gone, pick())
 		}
-		op = append(op, int64(len(old)))
+		stamp := 1
+		if r.Chance(1, 5) {
+			stamp = r.Range(2, 3) // a request stamped for another tractserver
+		}
+		op = append(op, int64(stamp), int64(len(old)))
 		pre := map[core.TractID]int{}
 		for j, o := range old {
 			b, i := c05Enc(blobs, o.ID)
@@ -1571,9 +1605,9 @@ func c05CaseStore(root *vw.Rng, ci int, tr *vw.Trace) {
 				ts.C05FailNextOpen(o.ID, 1)
 			}
 		}
-		ts.GCTract(1, old, gone)
+		reply := ts.GCTract(core.TractserverID(stamp), old, gone)
 		ts.C05ClearFaults()
-		var obs []int64
+		obs := []int64{int64(reply)}
 		goneSet := map[core.TractID]bool{}
 		for _, g := range gone {
 			goneSet[g] = true
@@ -1592,6 +1626,14 @@ func c05CaseStore(root *vw.Rng, ci int, tr *vw.Trace) {
 			}
 		}
 		emit(op, obs)
+		if stamp != 1 {
+			for t := range pre {
+				if ok, _ := ts.C05Has(t); !ok {
+					c05Violation(id, "store-misaddressed-instruction-removed-copy", "a GCTract request stamped with another tractserver id removed a copy",
+						map[string]interface{}{"tract": t.String(), "stamped-for": stamp, "reply": reply.String()})
+				}
+			}
+		}
 		// model-free: an "old" instruction never removes a copy newer than the version it names
 		maxv := map[core.TractID]int{}
 		for _, o := range old {
